@@ -71,7 +71,8 @@ def classify(ctx, prog, I, sites, prop, label, extra_ok=None):
                 ctx.count('invariant_table_sites')
                 continue
             ctx.ob('[%s] %s in %s discharged' % (label, desc, fn), False, sample=True)
-            ctx.finding('PANIC-SITE', fn, _inst(kind, I, key, prog), '%s can fail: %s' % (desc, bad.get(key) or 'reachable under %d path conditions' % len(pan.get(key, ()))), at=at)
+            ctx.finding('PANIC-SITE', fn, _inst(kind, I, key, prog), '%s can fail: %s%s' % (desc, bad.get(key) or 'reachable under %d path conditions' % len(pan.get(key, ())),
+                                                                                          (' [first met in: %s]' % getattr(I, 'first_seen_in', {}).get(key)) if getattr(I, 'first_seen_in', {}).get(key) else ''), at=at)
         elif key in visited_ok:
             n_dis += 1
             ctx.ob('[%s] %s in %s (%s) discharged' % (label, desc, fn, at.split('/')[-1]), True, sample=(n_dis % 9 == 1))
@@ -167,7 +168,11 @@ def run_entry(ctx, I, fn, args_builder, label, tag=None):
     st = State({})
     try:
         args = args_builder(I, st)
+        before = set(I.panics) | set(I.asserts_bad)
         tagged(I, tag, lambda: I.call_fn(fn, args, st))
+        labels = I.__dict__.setdefault('first_seen_in', {})
+        for k in (set(I.panics) | set(I.asserts_bad)) - before:
+            labels.setdefault(k, label)
         return True
     except Undecided as e:
         ctx.ob('[%s] interpretable' % label, False)
